@@ -322,6 +322,11 @@ def _add_zid_to_line(zid: str, line: str) -> str:
     words = line.split(" ")
     line_before_zid = _pop_line_before_zid(words)
 
+    # Drop any extra spaces between the prefix and the first word, since the
+    # indexed note body (see _add_zids) does not contain them either.
+    while len(words) > 1 and words[0] == "":
+        words.pop(0)
+
     # Remove a YYYY-MM-DD create date if one existed prior to adding a ZID to
     # the note.
     if len(words[0]) == 10:
